@@ -391,7 +391,9 @@ class Ctx:
         obls = [f for f in self.failures if f.kind == "obligation"]
         violations = 0
         lines = []
-        rep_dir = VERIF / "replays"
+        # runs against a scratch worktree (VERIF_REPO) must not overwrite the evidence of /repo
+        scratch_run = REPO.resolve() != Path("/repo")
+        rep_dir = (self.work / "replays") if scratch_run else (VERIF / "replays")
         printed_known = set()
         unknown_inputs = []
         for f in inputs:
@@ -408,7 +410,7 @@ class Ctx:
                 continue
             seen_sig.add(f.signature)
             violations += 1
-            rep_dir.mkdir(exist_ok=True)
+            rep_dir.mkdir(parents=True, exist_ok=True)
             path = rep_dir / f"{self.pid}-{re.sub(r'[^A-Za-z0-9_.-]+', '_', f.signature)[:80]}.json"
             path.write_text(json.dumps({"property": self.pid, "signature": f.signature, "what": f.what,
                                         "seed": self.seed, "tier": self.tier, "replay": f.replay,
@@ -417,7 +419,7 @@ class Ctx:
         if obls and not unknown_inputs:
             # the property is no longer shown to hold, and no (new) failing input was found
             violations += 1
-            rep_dir.mkdir(exist_ok=True)
+            rep_dir.mkdir(parents=True, exist_ok=True)
             path = rep_dir / f"{self.pid}-obligation.json"
             path.write_text(json.dumps({"property": self.pid, "no_longer_checks": [
                 {"name": o.signature, "what": o.what, "detail": o.replay} for o in obls],
@@ -432,8 +434,9 @@ class Ctx:
             "broken_obligations": [o.signature for o in obls],
             "notes": self.notes,
         }
-        (VERIF / "evidence").mkdir(exist_ok=True)
-        (VERIF / "evidence" / f"{self.pid}.json").write_text(json.dumps(ev, indent=1, default=repr) + "\n")
+        ev_dir = self.work if scratch_run else (VERIF / "evidence")
+        ev_dir.mkdir(exist_ok=True)
+        (ev_dir / f"{self.pid}.json").write_text(json.dumps(ev, indent=1, default=repr) + "\n")
         for ln in lines:
             print(ln, flush=True)
         self.log(f"done: obligations {self.cov['discharged']}/{self.cov['obligations']}, "
